@@ -230,7 +230,9 @@ RunResult run(J const &plan) {
           if (!ec.binary_state) {
             fs().get(state_path, loaded);
             std::string again = e->save_state_string();
-            StateDiff d = compare_state_text(loaded, again, 1e-10, 1e-300);
+            // (with rebinGrids the grids are recomputed from the hills on load: same numbers, different summation order)
+            bool rebinned = config.find("rebinGrids on") != std::string::npos;
+            StateDiff d = compare_state_text(loaded, again, rebinned ? 1e-8 : 1e-10, rebinned ? 1e-12 : 1e-300);
             res.counters["probe.loadsave_checked"]++;
             if (!d.same) res.fail("load_save", "state_differs/" + d.context, "token " + std::to_string(d.index) + " loaded '" + d.a + "' saved '" + d.b + "'");
           }
